@@ -34,8 +34,8 @@ CHECKS = {
    tech="deterministic simulation: seeded session histories + marker-addressed cancellation, differential between NoReg=false/true of the same real code"),
 
  "C11": dict(cat="exploration", ref="5.7",
-   text="Seeded sequential-history refinement: random operation histories (set/update/delete/merge/rest/range/literal with duplicates/permuted rebuild) over per-run universes of 3..16 mixed-type keys are applied in lock-step to object.Map via the Go API, to a variable of a real grol session via source text, and to an association-list model; after every operation length, lookup of every key, iteration order, printed form, equality with a canonically built twin and immutability of + operands are compared. No faults apply (stated); sampled, not enumerated.",
-   note="Cross-type key rank is learned from one canonical build per run (history independence rather than a hard-coded rank); int/float keys of equal value, NaN and -0 are left to C12.",
+   text="Seeded sequential-history refinement: random operation histories (set/update/delete/merge/rest/range/literal with duplicates/permuted rebuild) over per-run universes of 3..16 mixed-type keys (incl. int/float twins such as 1 and 1.0) are applied in lock-step to object.Map via the Go API, to a variable of a real grol session via source text, and to an association-list model; after every operation length, lookup of every key, iteration order, printed form, equality with a canonically built twin and immutability of + operands are compared. No faults apply (stated); sampled, not enumerated.",
+   note="Cross-type key rank is learned from one canonical build per run (history independence rather than a hard-coded rank); int/float twins (1 and 1.0) are one key whose first-stored representative stays (typed comparison of the stored key); NaN and -0 are left to C12.",
    tech="deterministic simulation harness used as seeded history search: sequential refinement of the real map implementation (API and language level) against a small executable reference model"),
  "C13": dict(cat="exploration", ref="5.8",
    text="Seeded sessions define macros (0..4 parameters, each unquoted 0..3 times in a quoted template from an expression grammar incl. called lambdas, if/else, arrays, map access) and use them 1..5 times in the same and later inputs, at top level, in functions, loops and as arguments of other macros, with side-effecting and loosely-binding arguments and failing inputs in between; macros are redefined between uses (new template, permuted/renamed/other-count parameters) and the current definitions plus a use are also delivered as one text through eval() to a macro-free session. The harness' textual-substitution model is parsed by the real parser and compared structurally with State.ExpandMacros' tree; the printed expansion (both modes) must re-parse and evaluate like the hand-substituted program; evaluation must match on a macro-free session; the first use's tree must be unchanged after later uses; nothing may be printed during expansion.",
